@@ -133,6 +133,21 @@ CLAIMED = {
              "comment producers / pure), the comment strippers. A new kind of guarded statement makes the obligation fail (fail closed).",
         technique="regenerated source-scan table (vm_compute) + Coq Text lemma + comment-stripped run comparison",
         design="4/C16"),
+    "C04": dict(
+        text="Coq theorem (every signature: any number of arguments, any buf_args, method or not): the C prototype and the bind(C) "
+             "interface list the same parameters in the same order provided every arg_decl entry is balanced; table theorems by "
+             "vm_compute over tables regenerated from /repo for c and c++ on every run: every native/bool/char typemap declares the "
+             "interoperable Fortran type and kind for its C type; the implied arguments (size, len, len_trim, capsule, context) use "
+             "exactly the interoperable pair in wrapc and wrapf (scanned from their source); every c_arg_decl/f_arg_decl pair is "
+             "interoperable; the capsule and array-descriptor structs have the same member order and interoperable member types; "
+             "the SH_TYPE constant tables are equal. Search/validation: gfortran -fc-prototypes output for every generated module "
+             "of corpus entries and generated libraries compared with the generated C prototypes (count, order, kind and size, "
+             "value vs reference, struct layout); modules must compile.",
+        note="Trusted: Coq kernel, the interoperability rules written in dyn/C04_tables.v (the specification, validated against "
+             "gfortran's own mapping), tools/gen_tables.py, tools/protocmp.py, gfortran. Not decided: descriptor (CFI) arguments "
+             "(gfortran 12 does not render them), bind(C) names with no prototype available (user functions without headers).",
+        technique="Coq proof (layout) + regenerated table theorems (vm_compute) + gfortran -fc-prototypes comparison",
+        design="4/C04"),
 }
 
 PENDING = {}
